@@ -17,7 +17,13 @@ CLAIMS = {
  "C10": ("pfcp-l1", "§6 C10", "Monitor: every usage report produced by the model data plane (notification, query, removal) for a live session and known URR appears exactly once, to the owning node, with the peer's SEID, with all measured values (64-bit spread tokens) and the measurement IEs selected by method / MNOP; unknown sessions/URRs dropped without disturbing the batch. Kernel multicast decoding is covered at L2."),
  "C11": ("pfcp-l1", "§6 C11", "Monitor: ghost counter per (session, URR incarnation); every usage-report IE in any of the three carriers must carry the counter's value in emission order."),
  "C12": ("pfcp-l1", "§6 C12", "Monitor: ghost PDR-URR relation from the Create/Update/Remove PDR IEs; the response must contain exactly one termination report per URR removed or un-referenced by the request and one immediate report per Query URR."),
+ "C14": ("pure-l0", "§6 C14", "GtpuEnc.tla: reference G-PDU header for flags 0x34 plus an independent well-formedness reading of the statement; TLC checks the reference against that reading for QFI 0..63 x PDU type 0..15 x with/without extension x TEID and payload-length classes and prints every state as a test vector; the real encoder is evaluated on all of them and on seeded random vectors, TLC validates each recorded packet against the reference."),
+ "C16": ("pure-l0", "§6 C16", "FlowDesc.tla: what an IPFilterRule denotes (octet-wise prefix masking, port ranges, uplink exchange); TLC enumerates abstract rules per grammar dimension (all protocols, prefix lengths 0..32, port lists of 0..3 items); rendered strings (varied spacing) go through the real parser and the real netlink encoder, the packed attributes are read back by an independent walker, TLC validates both results; near-miss and random strings must not fault."),
+ "C19": ("pure-l0", "§6 C19", "Flags.tla: the four bit tables transcribed from TS 29.244; TLC enumerates the words (all 1-/2-octet apply-action words, reporting triggers, usage-report triggers, cause mapping, volume flags x MNOP) and checks the table round-trip; the real decoders/encoders/accessors are evaluated on every word, TLC validates what they answered."),
+ "C20": ("pure-l0", "§6 C20", "Config.tla: accept/reject/silent verdict over the fault lattice of the configuration document; TLC enumerates all documents with up to 2 (thorough: 3) simultaneous faults, rendered YAML goes through the real ReadConfig, TLC validates acceptance, absence of a partially initialised object and unchanged values. The gtp5g version window is decided against the simulated netlink endpoint (second part of this check)."),
 }
+L0_NOTE = ("Trusted: TLC 1.8 + CommunityModules Json; the hand transcription of the standards' tables / the statement into the reference module "
+           "(its internal consistency is model-checked); the harness's rendering of abstract vectors into concrete inputs.")
 checks = []
 for p in props:
     pid = p["id"]
@@ -32,8 +38,9 @@ for p in props:
         "replay_cmd_template": "./check %s --replay {path}" % pid,
         "engine": eng,
         "level_claimed": {"category": "model_checking", "text": text, "design_ref": ref},
-        "level_note": L1_NOTE,
-        "technique": "explicit TLA+ spec (ideal model + property monitors), TLC exhaustive check, TLC-generated paths replayed on the real code, TLC trace validation of recorded executions",
+        "level_note": L1_NOTE if eng == "pfcp-l1" else L0_NOTE,
+        "technique": ("explicit TLA+ spec (ideal model + property monitors), TLC exhaustive check, TLC-generated paths replayed on the real code, TLC trace validation of recorded executions" if eng == "pfcp-l1" else
+                      "explicit TLA+ reference function, TLC-enumerated test vectors evaluated by the real code, TLC trace validation of the recorded results"),
     })
 na = [{"property_id": p["id"], "reason": "check under construction in this round (not yet registered); see DESIGN.md"} for p in props if p["id"] not in CLAIMS]
 m = {
@@ -44,6 +51,8 @@ m = {
  "engines": [
    {"name": "pfcp-l1", "path": "/verif/harness/pfcp, /verif/spec/{Mon,Upf,MC_Upf,Trace_Upf}.tla", "serves_properties": sorted(k for k, v in CLAIMS.items() if v[0] == "pfcp-l1"),
     "kind_free_text": "real PfcpServer (real loop, receiver, UDP on 127.k.0.0/24) + model data plane; TLA+ ideal model and monitors; TLC both ways"},
+   {"name": "pure-l0", "path": "/verif/harness/{gtpv1,report,forwarder,factory}, /verif/spec/{GtpuEnc,Flags,FlowDesc,Config}.tla + MC_*/Trace_*", "serves_properties": sorted(k for k, v in CLAIMS.items() if v[0] == "pure-l0"),
+    "kind_free_text": "function-level executors (overlay test files) fed with TLC-enumerated vectors; TLA+ reference functions"},
  ],
  "checks": checks,
  "not_applicable": na,
